@@ -35,6 +35,8 @@ structure Ref where
                                     -- `resolved` is what the name denoted when the write was recorded
   expr : Bool := true               -- a read in an expression position (false only for the read that
                                     -- `function f … end` makes of `f` just before writing it)
+  root : Bool := false              -- a read, but of the table being indexed in an assignment target
+                                    -- (`a` in `a.b = 1`, in `function a.b()`): the value of `a` is not "used"
 deriving DecidableEq, Repr, Inhabited
 
 structure St where
@@ -75,11 +77,11 @@ class NameFilter where
 def NameFilter.all : NameFilter := { keep := fun _ => true }
 
 /-- `read_name` (main-chunk `...` is not recorded) -/
-def St.read (σ : St) (t : Tok) (counted : Bool := true) : St :=
+def St.read (σ : St) (t : Tok) (counted : Bool := true) (root : Bool := false) : St :=
   if σ.fdepth = 0 ∧ t.text = "..." then σ
   else
     let r : Ref := { tok := t.idx, name := t.text, resolved := stackFind σ.stack t.text,
-                     counted := counted, expr := counted }
+                     counted := counted, expr := counted, root := root }
     { σ with refs := σ.refs ++ [r] }
 
 def rewrite (name : String) (v : Nat × Bool) (r : Ref) : Ref :=
@@ -175,6 +177,15 @@ def eagerV (σ : St) : Var → St
   | .expr _ p ss => eagerSs (eagerP σ p) ss
 end
 
+/-- an indexed assignment target `p.s… = …`: everything is read as usual, except that the name at the root
+    is read as the table being indexed, not for its value -/
+def eagerPT (σ : St) : Prefix → St
+  | .name t => σ.read t true true
+  | .expr e => eagerE σ e
+def eagerVT (σ : St) : Var → St
+  | .name t => σ.read t true true
+  | .expr _ p ss => eagerSs (eagerPT σ p) ss
+
 /-! ### the descent: function bodies inside expressions, statements, blocks -/
 mutual
 def descE (σ : St) : Expr → St
@@ -253,7 +264,7 @@ def assignTargets (σ : St) : VarList → ExprList → St
       | .nil => (σ, ExprList.nil)
     match v with
     | .name n => assignTargets (σ.hoist n) rest es'
-    | .expr _ _ _ => assignTargets (eagerV σ v) rest es'
+    | .expr _ _ _ => assignTargets (eagerVT σ v) rest es'
 def elseifs (σ : St) : ElseIfList → St
   | .nil => σ
   | .cons (.mk _ c b) rest =>
@@ -297,7 +308,7 @@ def stmt (σ : St) : Stmt → St
     | [] => σ
     | base :: more =>
       let longer := !more.isEmpty || name.method.isSome
-      let σ := if longer then σ.read base else (σ.read base false).hoist base
+      let σ := if longer then σ.read base true true else (σ.read base false).hoist base
       match name.method with
       | some m => (body_ (σ.open.declare m "self") body).close
       | none => body_ σ body
@@ -325,11 +336,13 @@ inductive Ans where
   | read (tok : Nat) (binding : Option Nat)
   | decl (tok : Nat) (shadows : Option Nat)
   | gassign (tok : Nat)                       -- a plain-name assignment target that denotes no local: a global is assigned
+  | root (tok : Nat) (binding : Option Nat)   -- a read of the table indexed in an assignment target
 deriving DecidableEq, Repr, Inhabited
 
 def Ref.ans (r : Ref) : Ans :=
   if r.decl then .decl r.tok (localBinding r)
   else if r.write then .gassign r.tok
+  else if r.root then .root r.tok (localBinding r)
   else .read r.tok (localBinding r)
 
 variable [NameFilter]
@@ -343,6 +356,10 @@ def Ref.kept (r : Ref) : Bool :=
 def St.log (σ : St) : List Ans := (σ.refs.filter fun r => r.counted && r.kept).map Ref.ans
 
 def Ans.readOf : Ans → Option (Nat × Option Nat)
+  | .read t d => some (t, d)
+  | .root t d => some (t, d)
+  | _ => none
+def Ans.valueOf : Ans → Option (Nat × Option Nat)
   | .read t d => some (t, d)
   | _ => none
 def Ans.declOf : Ans → Option (Nat × Option Nat)
@@ -360,6 +377,11 @@ def St.answers (σ : St) : List (Nat × Option Nat) :=
     global the file assigns not counting), in the order the visitor defines them -/
 def St.shadows (σ : St) : List (Nat × Option Nat) :=
   (σ.refs.filter fun r => r.counted && r.kept && r.decl).map fun r => (r.tok, localBinding r)
+
+/-- token ↦ binding for every read that uses the *value* of the name: an occurrence in an expression
+    position other than the root of an indexed assignment target -/
+def St.valueUses (σ : St) : List (Nat × Option Nat) :=
+  (σ.refs.filter fun r => r.counted && r.kept && !r.decl && !r.write && !r.root).map fun r => (r.tok, localBinding r)
 
 /-- tokens of the plain-name assignment targets (and `function name` statements) that assign a global -/
 def St.globalAssigns (σ : St) : List Nat :=
